@@ -355,6 +355,20 @@ def emit_c12_types(repo, types, props, anc, out, only=None, serialize=False, dec
                 L.append("  loop 1 [C12] invariant %s_written: W_%s && U_%s ==> m[N_%s] == V_%s" % (f, f, f, f, f))
                 L.append("  loop 1 [C12] invariant %s_did_not_fail: this.%s != nil ==> E_%s == nil" % (f, f, f))
             nfun += 1
+        # ---- construction: a new value holds its own type name in the type property and nothing else
+        if decode:
+            others = " && ".join("result.%s == nil" % f for f, _, _ in sorted(exp) if f != "JSONLDType") or "true"
+            L.append("func %s.New%s%s" % (pkg, d["vocab"], t))
+            L.append("  modifies gItems, ASHP")
+            if d["typeless"]:
+                L.append("  [C12] ensures a_new_value_is_empty: result != nil && result.unknown != nil && %s" % others)
+            else:
+                ak = "streams/vocab.JSONLDTypeProperty.AppendXMLSchemaString#1"
+                L.append('  [C12] at call %s: assert the_type_property_names_this_type: $arg1 == "%s"' % (ak, t))
+                L.append("  [C12] at call %s: ghost gItems = $arg0" % ak)
+                L.append("  [C12] ensures a_new_value_holds_only_its_type: result != nil && result.unknown != nil && result.JSONLDType != nil && result.JSONLDType == gItems && %s" % others)
+                L.append("dyncall %s.New%s%s.* satisfies type-property-constructor" % (pkg, d["vocab"], t))
+            nfun += 1
         L.append("dyncall %s.Deserialize%s.* satisfies slot-decoder-call" % (pkg, t))
         for f, dec, _ in sorted(exp):
             L.append("iface %s.privateManager.%s" % (pkg, dec))
